@@ -396,7 +396,9 @@ func (cs *clientStream) doHttpCall(transport http.RoundTripper, req *http.Reques
 		defer cs.rMu.Unlock()
 
 		if rErr != nil && cs.rErr == nil {
-			cs.rErr = rErr
+			// a read that failed because the context ended reports the context's
+			// error as is; callers must see a status
+			cs.rErr = statusFromContextError(rErr)
 		}
 		cs.done = true
 		readPipe.CloseWithError(rErr)
@@ -466,6 +468,7 @@ func (cs *clientStream) doHttpCall(transport http.RoundTripper, req *http.Reques
 				if cs.rErr == io.EOF {
 					cs.rErr = io.ErrUnexpectedEOF
 				}
+				cs.rErr = statusFromContextError(cs.rErr)
 			}
 			if len(cs.tr.Metadata) > 0 && len(cs.copts.Trailers) > 0 {
 				cs.copts.SetTrailers(metadataFromProto(cs.tr.Metadata))
